@@ -7,5 +7,5 @@ MCShapes == GenFlagShapes(MCLong)
 MCProps == {"C10"}
 MCScript == <<>>
 ASSUME PrintT("SHAPES " \o ToJson(MCShapes))
-INSTANCE Session WITH Shapes <- MCShapes, Script <- MCScript, Deep <- MCDeep, Props <- MCProps, ObjMode <- "all", RawMode <- "plans"
+INSTANCE Session WITH Shapes <- MCShapes, Script <- MCScript, Deep <- MCDeep, Props <- MCProps, ObjMode <- "all", RawMode <- "plans", EmptyMode <- "plain"
 ====
